@@ -161,6 +161,15 @@ func checkLoopTotality(c *Ctx, rule string, pk *packages.Package, label string, 
 			case *ast.RangeStmt:
 				elem = specCollectionElem(info.TypeOf(x.X))
 				body = x.Body
+				if elem == "" {
+					// a list of names handed out by the analysed spec (required security schemes, operation ids,
+					// media types): ranged directly or through a local it was assigned to
+					if call, ok := ast.Unparen(goan.ResolveLocal(info, fd.Body, x.X)).(*ast.CallExpr); ok {
+						if fn := goan.Callee(info, call); fn != nil && fn.Pkg() != nil && (fn.Pkg().Path() == "github.com/go-openapi/analysis" || fn.Pkg().Path() == "github.com/go-openapi/spec") {
+							elem = "analysis." + fn.Name() + "()"
+						}
+					}
+				}
 			case *ast.ForStmt:
 				// for i := 0; i < X.NumFields()/NumMethods()/Len(); i++
 				if be, ok := x.Cond.(*ast.BinaryExpr); ok {
